@@ -85,10 +85,18 @@ func c23newWorld(belief [2]int, master int) *c23world {
 	return w
 }
 
+// c23switchGoroutine marks, in a dump of all goroutine stacks, the two goroutines _refresh starts for the
+// concurrent master / replica switch, whether they have started to run or not (a goroutine that has not run
+// yet shows no frame of its own, only its creator).
+const c23switchGoroutine = "created by github.com/redis/rueidis.(*sentinelClient)._refresh in goroutine"
+
+var c23bufs = sync.Pool{New: func() any { b := make([]byte, 1<<16); return &b }}
+
 func c23count(sub string) int {
-	buf := make([]byte, 1<<17)
-	n := runtime.Stack(buf, true)
-	return bytes.Count(buf[:n], []byte(sub))
+	bp := c23bufs.Get().(*[]byte)
+	defer c23bufs.Put(bp)
+	n := runtime.Stack(*bp, true)
+	return bytes.Count((*bp)[:n], []byte(sub))
 }
 
 // holdFailure makes the client's concurrent master/replica switch deterministic: an answer that makes one
@@ -99,8 +107,7 @@ func (w *c23world) holdFailure() {
 		return
 	}
 	atomic.AddInt32(&w.waiters, 1)
-	// "._refresh.func" matches the two goroutine bodies of _refresh, started or not yet started
-	for c23count("sentinelClient)._refresh.func") > int(atomic.LoadInt32(&w.waiters)) {
+	for c23count(c23switchGoroutine) > int(atomic.LoadInt32(&w.waiters)) {
 		runtime.Gosched()
 	}
 	atomic.AddInt32(&w.waiters, -1)
@@ -301,6 +308,7 @@ type c23sim struct {
 	w       *c23world
 	cl      *sentinelClient
 	root    c23root
+	base    int  // runtime.NumGoroutine() before the client existed
 	pending bool // a refreshRetry loop of the client is (conceptually) still spinning
 	viol    [][2]string
 	dead    bool // construction failed / history abandoned
@@ -309,11 +317,7 @@ type c23sim struct {
 
 func (s *c23sim) violate(sig, detail string) { s.viol = append(s.viol, [2]string{sig, detail}) }
 
-func c23goroutineIn(sub string) bool {
-	buf := make([]byte, 1<<17)
-	n := runtime.Stack(buf, true)
-	return bytes.Contains(buf[:n], []byte(sub))
-}
+func c23goroutineIn(sub string) bool { return c23count(sub) > 0 }
 
 // settle waits (on conditions, not on time) until the goroutines the client started in the last step are done
 var c23dbg = os.Getenv("C23DBG") != ""
@@ -329,16 +333,16 @@ func (s *c23sim) settle() {
 		w.cond.Wait()
 	}
 	w.mu.Unlock()
-	if s.root.Replicas {
-		// _refresh runs the master and the replica switch concurrently and may leave one of them behind
-		for c23goroutineIn("sentinelClient)._refresh.func") || c23goroutineIn("sentinelClient)._switchTarget(") || atomic.LoadInt32(&w.waiters) != 0 {
-			runtime.Gosched()
-		}
+	// every goroutine the client started in this step has ended: the listWatch subscribers (Receive returns at
+	// once) and, with SendToReplicas, the two concurrent switch goroutines of _refresh, one of which may be left
+	// behind by _refresh
+	for runtime.NumGoroutine() > s.base || atomic.LoadInt32(&w.waiters) != 0 {
+		runtime.Gosched()
 	}
 }
 
 func c23start(root c23root) *c23sim {
-	s := &c23sim{root: root, w: c23newWorld(root.Belief, root.Master)}
+	s := &c23sim{root: root, w: c23newWorld(root.Belief, root.Master), base: runtime.NumGoroutine()}
 	s.w.replicas = root.Replicas
 	opt := &ClientOption{InitAddress: []string{c23sentAddr[0], c23sentAddr[1]}, Sentinel: SentinelOption{MasterSet: c23masterSet}}
 	if root.Replicas {
